@@ -157,6 +157,8 @@ func (f *scriptRelay) nextSession(timeout time.Duration) *cliSession {
 
 // app collects what a client's peer reference surfaces to the application.
 type app struct {
+	// gate, if non-nil, makes the application wait for a token before every Recv (a slow consumer)
+	gate  chan struct{}
 	mu    sync.Mutex
 	got   []*signaling.SessionMsg
 	gotAt []int64
@@ -164,6 +166,13 @@ type app struct {
 
 func (a *app) run(ctx context.Context, ref *signaling_rpc_client.ClientPeerRef) {
 	for {
+		if a.gate != nil {
+			select {
+			case <-a.gate:
+			case <-ctx.Done():
+				return
+			}
+		}
 		m, err := ref.Recv(ctx)
 		if err != nil {
 			return
